@@ -50,9 +50,12 @@ def random_case(rnd, idx):
             ops.append(rnd.choice(["wake %d" % t, "wake %d" % t, "complete %d ; wake %d" % (t, t)]))
         progs.append(" ; ".join(ops))
     total = 5 * sum(len(p.split(";")) for p in progs) + 8 * len(loop_ops)
-    sched = []
+    # first let the loop schedule and poll the first task once (wakers exist only after a first poll) …
+    sched = [0] * rnd.randrange(9, 14)
+    # … then interleave freely, with a bias towards short waker bursts inside the executor's batch
     while len(sched) < total:
-        sched += [rnd.randrange(0, n + 1)] * rnd.choice([1, 1, 2, 3, 5])
+        t = rnd.randrange(0, n + 1)
+        sched += [t] * (rnd.choice([1, 1, 2, 3]) if t == 0 else rnd.choice([1, 2, 2, 4, 5]))
     sched += list(range(1, n + 1)) * 12 + [0] * 30
     return case_text("r%d" % idx, k, loop_ops + ["dispatch", "dispatch"], progs, sched)
 
